@@ -3,27 +3,54 @@
  * not depend on the shape of the thread's loops (a change that restructures them makes the unbounded unit UNDECIDED
  * "overlay anchor lost"; this unit still decides, within its bound).
  *
- * Real code: source/log_channel.c and the real inline array-list operations of array_list.inl (push_back/set_at,
- * swap_contents, get_at, clear, length, clean_up, pop_front_n, ...) on real memory; only allocation is simplified
- * (init_dynamic gives every list room for 64 elements, so that the growth path of source/array_list.c is not needed).
- * Stubs: aws_mutex_lock/unlock (ghost lock state), aws_condition_variable_wait_pred (synchronisation point: appends an
- * arbitrary number of new lines with the real aws_array_list_push_back - as a sender would under the mutex - and leaves
- * `finished` with an arbitrary value), the writer's write function and aws_string_destroy (ghost counters),
- * aws_mem_acquire/release (malloc/free, never NULL: OOM aborts in this library version), aws_fatal_assert (assert(0)).
+ * Real code: source/log_channel.c.  The array-list operations it calls are redirected (macros below) to stubs that keep
+ * the same ABSTRACT view of a list as the contracts of the unbounded unit: a list is the run of sequence numbers
+ * [base, base + length) (real `length` field, ghost base per list); get_at hands out line number base + index.
+ * (The real inline list code on real memory was tried first: fine on the unchanged tree - 100 s at 40 lines - but a
+ * variant that pops lines off the front (memmove with symbolic size) needed > 24 GB.)
+ * Stubs: aws_mutex_lock/unlock (ghost lock state), aws_condition_variable_wait_pred (synchronisation point: an
+ * arbitrary number of new lines is appended to the pending list - as senders do under the mutex - and `finished` is
+ * left with an arbitrary value), the writer's write function and aws_string_destroy (ghost counters), aws_fatal_assert
+ * (assert(0)).
  *
- * Lines are the elements of a static table: line n is &b_store[n]; n is its sequence number (acceptance order).
+ * Lines are the elements of a static table: line n is &r_store[n]; n is its sequence number (acceptance order).
  * Checked at every call:   write call n is handed line n, which has not been destroyed yet  (in order, exactly once);
  *                          destroy call n destroys line n, after write call n               (exactly once);
  * checked at return:       finished was seen, the pending list is empty, writes == destroys == accepted lines,
  *                          the mutex is released.
  * Bound (VERIF_BGT_LINES / VERIF_BGT_WAITS): at most VERIF_BGT_LINES lines are accepted over the whole run; waits
  * number 1 .. VERIF_BGT_WAITS-1 are unconstrained, from wait number VERIF_BGT_WAITS on `finished` is set and nothing
- * arrives any more; the thread then needs at most VERIF_BGT_WAITS+1 rounds, which is asserted (b_rounds). */
+ * arrives any more; the thread then needs at most VERIF_BGT_WAITS+1 rounds, which is asserted (r_rounds). */
 #define VERIF_CHANNEL_TU
 #define VERIF_TRACK_ERRORS
 #include "contracts/logging.h" /* ghost variables named by the loop contracts that the overlay inserts into log_channel.c */
-#include "source/log_channel.c"
 #include <stdlib.h>
+
+#define aws_array_list_init_dynamic r_list_init_dynamic
+#define aws_array_list_length r_list_length
+#define aws_array_list_swap_contents r_list_swap_contents
+#define aws_array_list_get_at r_list_get_at
+#define aws_array_list_clear r_list_clear
+#define aws_array_list_clean_up r_list_clean_up
+#define aws_array_list_push_back r_list_push_back
+#define aws_array_list_pop_front_n r_list_pop_front_n
+static int r_list_init_dynamic(struct aws_array_list *list, struct aws_allocator *alloc, size_t initial_item_allocation, size_t item_size);
+static size_t r_list_length(const struct aws_array_list *list);
+static void r_list_swap_contents(struct aws_array_list *list_a, struct aws_array_list *list_b);
+static int r_list_get_at(const struct aws_array_list *list, void *val, size_t index);
+static void r_list_clear(struct aws_array_list *list);
+static void r_list_clean_up(struct aws_array_list *list);
+static int r_list_push_back(struct aws_array_list *list, const void *val);
+static void r_list_pop_front_n(struct aws_array_list *list, size_t n);
+#include "source/log_channel.c"
+#undef aws_array_list_init_dynamic
+#undef aws_array_list_length
+#undef aws_array_list_swap_contents
+#undef aws_array_list_get_at
+#undef aws_array_list_clear
+#undef aws_array_list_clean_up
+#undef aws_array_list_push_back
+#undef aws_array_list_pop_front_n
 
 #ifndef VERIF_BGT_LINES
 #    define VERIF_BGT_LINES 40
@@ -32,12 +59,12 @@
 #    define VERIF_BGT_WAITS 3
 #endif
 
-static struct aws_string b_store[VERIF_BGT_LINES + 1];
-#define B_LINE(n) (&b_store[n])
-static size_t b_accepted, b_writes, b_destroys, b_waits, b_rounds, b_first_batch;
-static bool b_locked, b_finished_at_first_wait;
-static struct aws_log_background_channel *b_impl;
-static struct aws_log_writer *b_writer;
+static struct aws_string r_store[VERIF_BGT_LINES + 1];
+#define B_LINE(n) (&r_store[n])
+static size_t r_accepted, r_writes, r_destroys, r_waits, r_rounds, r_first_batch;
+static bool r_locked, r_finished_at_first_wait;
+static struct aws_log_background_channel *r_impl;
+static struct aws_log_writer *r_writer;
 
 void aws_fatal_assert(const char *cond_str, const char *file, int line) {
     (void)cond_str; (void)file; (void)line;
@@ -45,46 +72,85 @@ void aws_fatal_assert(const char *cond_str, const char *file, int line) {
     __CPROVER_assume(0);
 }
 void aws_raise_error_private(int err) { g_last_error = err; g_raise_count++; }
-void *aws_mem_acquire(struct aws_allocator *allocator, size_t size) {
-    (void)allocator;
-    void *p = malloc(size);
-    __CPROVER_assume(p != NULL);
-    return p;
-}
-void aws_mem_release(struct aws_allocator *allocator, void *ptr) {
-    (void)allocator;
-    free(ptr);
-}
-/* source/array_list.c is not part of this unit: a dynamic list gets room for B_CAP (> VERIF_BGT_LINES) elements at once,
- * so growing is never needed (asserted).  Everything else - push_back/set_at, swap_contents, get_at, clear, length,
- * pop_front_n, clean_up - is the real inline code of array_list.inl working on that memory. */
-#define B_CAP 64
-int aws_array_list_init_dynamic(struct aws_array_list *list, struct aws_allocator *alloc, size_t initial_item_allocation, size_t item_size) {
-    __CPROVER_assert(alloc != NULL && item_size == sizeof(struct aws_string *) && initial_item_allocation <= B_CAP, "init_dynamic: a list of line pointers");
+/* ---- abstract lists: the pending list (r_base_p) and the thread's private list (r_local, r_base_l) */
+static size_t r_base_p, r_base_l, r_local_inits, r_local_cleanups;
+static struct aws_array_list *r_local;
+#define B_PENDING (&r_impl->pending_log_lines)
+#define B_CHECK_LIST(l, what)                                                                                          \
+    __CPROVER_assert(((l) == B_PENDING && r_locked) || ((l) != B_PENDING && (l) == r_local),                           \
+                     what ": the thread's private list, or the pending list while the channel mutex is held")
+static int r_list_init_dynamic(struct aws_array_list *list, struct aws_allocator *alloc, size_t initial_item_allocation, size_t item_size) {
+    (void)initial_item_allocation;
+    __CPROVER_assert(list != B_PENDING && alloc != NULL && item_size == sizeof(struct aws_string *) && r_local_inits == 0,
+                     "init_dynamic: the thread's one private list of line pointers");
     list->alloc = alloc;
-    list->current_size = B_CAP * sizeof(struct aws_string *);
+    list->current_size = 0;
     list->length = 0;
     list->item_size = item_size;
-    list->data = aws_mem_acquire(alloc, B_CAP * sizeof(struct aws_string *));
-    return AWS_OP_SUCCESS;
+    list->data = NULL; /* no storage: any real list code that touched it would be flagged */
+    r_local = list;
+    r_base_l = 0;
+    r_local_inits++;
+    return AWS_OP_SUCCESS; /* cannot fail: 10 * 8 does not overflow, aws_mem_acquire aborts instead of returning NULL */
 }
-int aws_array_list_ensure_capacity(struct aws_array_list *list, size_t index) {
-    __CPROVER_assert(index < B_CAP && list->current_size == B_CAP * sizeof(struct aws_string *), "bounded environment: the list never has to grow");
-    return AWS_OP_SUCCESS;
+static size_t r_list_length(const struct aws_array_list *list) {
+    B_CHECK_LIST(list, "length");
+    return list->length;
+}
+static void r_list_swap_contents(struct aws_array_list *list_a, struct aws_array_list *list_b) {
+    __CPROVER_assert(r_locked, "swap_contents: the pending list is only touched while the channel mutex is held");
+    __CPROVER_assert((list_a == B_PENDING && list_b == r_local) || (list_a == r_local && list_b == B_PENDING), "swap_contents: pending list and private list");
+    __CPROVER_assert(list_a->alloc != NULL && list_a->alloc == list_b->alloc && list_a->item_size == list_b->item_size, "swap_contents: the real function's fatal preconditions");
+    struct aws_array_list tmp = *list_a;
+    *list_a = *list_b;
+    *list_b = tmp;
+    size_t t = r_base_p;
+    r_base_p = r_base_l;
+    r_base_l = t;
+}
+static int r_list_get_at(const struct aws_array_list *list, void *val, size_t index) {
+    B_CHECK_LIST(list, "get_at");
+    if (index < list->length) {
+        size_t n = (list == B_PENDING ? r_base_p : r_base_l) + index;
+        __CPROVER_assert(n < r_accepted, "model: a list holds accepted lines only");
+        *(struct aws_string **)val = B_LINE(n);
+        return AWS_OP_SUCCESS;
+    }
+    return aws_raise_error(AWS_ERROR_INVALID_INDEX);
+}
+static void r_list_clear(struct aws_array_list *list) {
+    B_CHECK_LIST(list, "clear");
+    list->length = 0;
+}
+static void r_list_clean_up(struct aws_array_list *list) {
+    __CPROVER_assert(list == r_local && r_local_inits == 1 && r_local_cleanups == 0 && !r_locked, "clean_up: the private list, once");
+    r_local_cleanups++;
+    AWS_ZERO_STRUCT(*list);
+}
+static int r_list_push_back(struct aws_array_list *list, const void *val) { /* sender side (s_background_channel_send): not part of this unit */
+    (void)list; (void)val;
+    __CPROVER_assert(0, "push_back is not called by the thread");
+    return AWS_OP_ERR;
+}
+static void r_list_pop_front_n(struct aws_array_list *list, size_t n) { /* the first n elements go, the rest keep their numbers */
+    B_CHECK_LIST(list, "pop_front_n");
+    size_t k = n >= list->length ? list->length : n;
+    list->length -= k;
+    if (list == B_PENDING) r_base_p += k; else r_base_l += k;
 }
 
 int aws_mutex_lock(struct aws_mutex *mutex) {
-    __CPROVER_assert(mutex == &b_impl->sync && !b_locked, "lock: the channel's own mutex, not held yet");
-    b_locked = true;
-    b_rounds++;
+    __CPROVER_assert(mutex == &r_impl->sync && !r_locked, "lock: the channel's own mutex, not held yet");
+    r_locked = true;
+    r_rounds++;
     /* the bounded environment lets the thread finish within VERIF_BGT_WAITS+1 rounds: asserted, then cut */
-    __CPROVER_assert(b_rounds <= VERIF_BGT_WAITS + 1, "bounded environment: no further round of the main loop is needed");
-    __CPROVER_assume(b_rounds <= VERIF_BGT_WAITS + 1);
+    __CPROVER_assert(r_rounds <= VERIF_BGT_WAITS + 1, "bounded environment: no further round of the main loop is needed");
+    __CPROVER_assume(r_rounds <= VERIF_BGT_WAITS + 1);
     return AWS_OP_SUCCESS;
 }
 int aws_mutex_unlock(struct aws_mutex *mutex) {
-    __CPROVER_assert(mutex == &b_impl->sync && b_locked, "unlock: the channel's own mutex, held");
-    b_locked = false;
+    __CPROVER_assert(mutex == &r_impl->sync && r_locked, "unlock: the channel's own mutex, held");
+    r_locked = false;
     return AWS_OP_SUCCESS;
 }
 int aws_condition_variable_wait_pred(
@@ -93,67 +159,70 @@ int aws_condition_variable_wait_pred(
     aws_condition_predicate_fn *pred,
     void *pred_ctx) {
     (void)pred; (void)pred_ctx;
-    __CPROVER_assert(condition_variable == &b_impl->pending_line_signal && mutex == &b_impl->sync && b_locked,
+    __CPROVER_assert(condition_variable == &r_impl->pending_line_signal && mutex == &r_impl->sync && r_locked,
                      "wait: the channel's signal, with the channel mutex held");
-    b_waits++;
-    if (b_waits >= VERIF_BGT_WAITS) {
-        b_impl->finished = true;
+    r_waits++;
+    if (r_waits >= VERIF_BGT_WAITS) {
+        r_impl->finished = true;
     } else {
         size_t add = nondet_size_t();
-        __CPROVER_assume(add <= VERIF_BGT_LINES - b_accepted);
-        for (size_t k = 0; k < add; ++k) {
-            struct aws_string *line = B_LINE(b_accepted);
-            int r = aws_array_list_push_back(&b_impl->pending_log_lines, &line); /* what s_background_channel_send does */
-            __CPROVER_assert(r == AWS_OP_SUCCESS, "environment: the sender's push succeeds");
-            b_accepted++;
+        __CPROVER_assume(add <= VERIF_BGT_LINES - r_accepted);
+        if (B_PENDING->length == 0) {
+            r_base_p = r_accepted;
+        } else {
+            __CPROVER_assert(r_base_p + B_PENDING->length == r_accepted, "the pending list holds exactly the accepted lines this thread has not taken yet");
         }
-        b_impl->finished = nondet_bool();
-        if (b_waits == 1) {
-            b_first_batch = add;
-            b_finished_at_first_wait = b_impl->finished;
+        B_PENDING->length += add; /* what `add` calls of s_background_channel_send do */
+        r_accepted += add;
+        r_impl->finished = nondet_bool();
+        if (r_waits == 1) {
+            r_first_batch = add;
+            r_finished_at_first_wait = r_impl->finished;
         }
     }
     return nondet_int(); /* the thread ignores it */
 }
 
-static int b_write(struct aws_log_writer *writer, const struct aws_string *output) {
-    __CPROVER_assert(writer == b_writer, "write: the channel's writer");
-    __CPROVER_assert(b_writes < b_accepted, "write: no more write calls than accepted lines");
-    __CPROVER_assert(b_destroys <= b_writes, "write: the line handed to the writer is still alive");
-    __CPROVER_assert(output == B_LINE(b_writes), "write call n is handed line n (in order, exactly once)");
-    b_writes++;
+static int r_write(struct aws_log_writer *writer, const struct aws_string *output) {
+    __CPROVER_assert(writer == r_writer, "write: the channel's writer");
+    __CPROVER_assert(r_writes < r_accepted, "write: no more write calls than accepted lines");
+    __CPROVER_assert(r_destroys <= r_writes, "write: the line handed to the writer is still alive");
+    __CPROVER_assert(output == B_LINE(r_writes), "write call n is handed line n (in order, exactly once)");
+    r_writes++;
     return nondet_int();
 }
 void aws_string_destroy(struct aws_string *str) {
-    __CPROVER_assert(b_destroys < b_writes, "destroy: a line is destroyed only after it was written");
-    __CPROVER_assert(str == B_LINE(b_destroys), "destroy call n destroys line n (exactly once)");
-    b_destroys++;
+    __CPROVER_assert(r_destroys < r_writes, "destroy: a line is destroyed only after it was written");
+    __CPROVER_assert(str == B_LINE(r_destroys), "destroy call n destroys line n (exactly once)");
+    r_destroys++;
 }
 
 void h_background_thread_bounded(void) {
     struct aws_allocator alloc;
-    struct aws_log_writer_vtable wvt = {.write = b_write, .clean_up = NULL};
+    struct aws_log_writer_vtable wvt = {.write = r_write, .clean_up = NULL};
     struct aws_log_writer writer = {.vtable = &wvt, .allocator = &alloc, .impl = NULL};
     struct aws_log_background_channel impl;
     struct aws_log_channel channel = {.vtable = &s_background_channel_vtable, .allocator = &alloc, .writer = &writer, .impl = &impl};
-    b_accepted = b_writes = b_destroys = b_waits = b_rounds = b_first_batch = 0;
-    b_locked = b_finished_at_first_wait = false;
-    b_impl = &impl;
-    b_writer = &writer;
+    r_accepted = r_writes = r_destroys = r_waits = r_rounds = r_first_batch = 0;
+    r_locked = r_finished_at_first_wait = false;
+    r_impl = &impl;
+    r_writer = &writer;
     /* as aws_log_channel_init_background leaves it */
     impl.finished = false;
-    int r0 = aws_array_list_init_dynamic(&impl.pending_log_lines, &alloc, 10, sizeof(struct aws_string *));
-    __CPROVER_assert(r0 == AWS_OP_SUCCESS, "environment: pending list initialised");
+    impl.pending_log_lines = (struct aws_array_list){.alloc = &alloc, .current_size = 0, .length = 0, .item_size = sizeof(struct aws_string *), .data = NULL};
+    r_base_p = r_base_l = r_local_inits = r_local_cleanups = 0;
+    r_local = NULL;
 
     aws_background_logger_thread(&channel);
 
     __CPROVER_assert(impl.finished, "returns only after it has seen finished");
-    __CPROVER_assert(aws_array_list_length(&impl.pending_log_lines) == 0, "nothing is left pending");
-    __CPROVER_assert(b_writes == b_accepted, "every accepted line was handed to the writer");
-    __CPROVER_assert(b_destroys == b_accepted, "every accepted line was destroyed");
-    __CPROVER_assert(!b_locked, "the mutex is released");
+    __CPROVER_assert(impl.pending_log_lines.length == 0, "nothing is left pending");
+    __CPROVER_assert(r_writes == r_accepted, "every accepted line was handed to the writer");
+    __CPROVER_assert(r_destroys == r_accepted, "every accepted line was destroyed");
+    __CPROVER_assert(!r_locked, "the mutex is released");
+    __CPROVER_assert(r_local_inits == r_local_cleanups, "a private list that was initialised was cleaned up");
     CANARY("returned");
-    if (b_accepted == 0) CANARY("returned without ever seeing a line");
-    if (b_first_batch > 32 && b_finished_at_first_wait) CANARY("more than 32 lines pending when finished is first seen");
-    if (b_accepted > b_first_batch && b_first_batch > 0) CANARY("lines arrived while a batch was being written");
+    if (r_accepted == 0) CANARY("returned without ever seeing a line");
+    if (r_first_batch > 32 && r_finished_at_first_wait) CANARY("more than 32 lines pending when finished is first seen");
+    if (r_accepted > r_first_batch && r_first_batch > 0) CANARY("lines arrived while a batch was being written");
 }
